@@ -20,9 +20,9 @@ check('C16', 'other',
       'requires of the loop contract; callback writes only through its view; netlist-level meaning bounded only',
       'contract-based deductive verification with ghost call log + bounded stand-in', 'DESIGN.md 5-C16')
 check('C17', 'other',
-      'Proved (unbounded, one function): Circuit.topological_line_order yields exactly the connected output lines of the nodes in the order topological_order() gives them, pin order within a node, never None (generator executed symbolically, yields as a ghost sequence). Bounded: runtime contracts of the worklist traversals (topological_order, reversed order, fan-in, levels) and name lookups on a stated circuit/naming space (exhaustive small family + seeded).',
-      'topological_order() enters the proved part as an arbitrary node sequence; the worklist generators themselves are bounded only; oracle = spec-side graph search',
-      'contract-based deductive verification (ast->z3 VCs, generator yields as ghost sequence) of one traversal + bounded runtime-contract stand-in for the worklist traversals', 'DESIGN.md 5-C17')
+      'Proved (unbounded, two functions, relative to topological_order): Circuit.topological_line_order yields exactly the connected output lines of the nodes in the order topological_order() gives them, pin order within a node, never None; Circuit.topological_order_with_level reports for every node its longest combinational distance from a source (0 for state elements and input-less nodes, else 1 + maximum over its drivers) (generators executed symbolically, yields as a ghost sequence). Bounded: runtime contracts of the worklist traversals (topological_order, reversed order, fan-in, levels) and name lookups on a stated circuit/naming space (exhaustive small family + seeded).',
+      'topological_order() enters the proved parts as a node sequence (for the levels: with the guarantees of its bounded contract as requires; numpy max by an assumed contract); the worklist generators themselves are bounded only; oracle = spec-side graph search',
+      'contract-based deductive verification (ast->z3 VCs, generator yields as ghost sequence) of two traversals + bounded runtime-contract stand-in for the worklist traversals', 'DESIGN.md 5-C17')
 check('C03', 'other',
       'Proved (unbounded, all LUTs / operand waveforms / capacities >= 4 / delays >= 0 / dataset modes): _wave_eval output is well formed, its final value (parity) and its initial value are the LUT of the operand final / initial values also on the overflow path, frame and lane clauses, termination; capture and assign kernels; WaveSim.s_to_c encoding; composition over op list x lanes x levels (level_eval_cpu, WaveSim.c_prop) under memory-map hypotheses. Bounded: the hypotheses, translation and the end-to-end result on real runs against the netlist oracle, incl. instance re-use.',
       'extended-real model of float32 time stamps, integers mathematical, sd = 0; memory-map hypotheses A1-A4w partly proved (C08) otherwise bounded; GPU path composed per thread only',
